@@ -798,6 +798,12 @@ impl<F: MatchFunc> Aligner<F> {
                     verif_steps <= 2 * (m + n) + 16,
                     "VERIF-HOOK traceback step bound exceeded"
                 );
+                // the traceback is reading a cell that the banded DP never filled in
+                if last_layer != TB_START
+                    && !self.band.ranges.get(j).map_or(false, |r| r.contains(&i))
+                {
+                    crate::verif::hit("banded.tb_out_of_band_cell");
+                }
             }
             let next_layer: u16;
             match last_layer {
